@@ -84,18 +84,27 @@ def gen_case(rng, i, tier):
     layers = [base]
     cur = base
     for _ in range(rng.choice([0, 1, 1, 2])):
-        ch = gen.child_of(rng, cur, labels, 0, 0.0)
-        if rng.random() < 0.2 and isinstance(ch, dict):
-            place(rng, ch, 1)
-            labels.add('placed-in-upper')
-        if rng.random() < 0.12 and isinstance(ch, dict) and isinstance(cur, dict) and cur:
-            ch[rng.choice(list(cur.keys()))] = None
-            labels.add('null-in-upper')
-        layers.append(ch)
-        try:
-            cur = model.merge(cur, ch, model.Notes(null_policy=model.null_policies()[0]))
-        except model.Reject:
+        for attempt in range(4):
+            ch = gen.child_of(rng, cur, labels, 0, 0.0)
+            if rng.random() < 0.2 and isinstance(ch, dict):
+                place(rng, ch, 1)
+                labels.add('placed-in-upper')
+            if rng.random() < 0.12 and isinstance(ch, dict) and isinstance(cur, dict) and cur:
+                ch[rng.choice(list(cur.keys()))] = None
+                labels.add('null-in-upper')
+            try:
+                nxt = model.merge(cur, ch, model.Notes(null_policy=model.null_policies()[0]))
+            except model.Reject:
+                if attempt < 3 and rng.random() < 0.9:
+                    continue        # mostly keep chains the merge rules accept (a rejected chain has no skeleton to judge)
+                layers.append(ch)
+                nxt = None
+                break
+            layers.append(ch)
             break
+        if nxt is None:
+            break
+        cur = nxt
     fmts = [rng.choice(['json', 'yaml', 'yaml', 'toml']) for _ in layers]
     return {'layers': layers, 'fmts': fmts, 'labels': sorted(labels)}
 
